@@ -223,7 +223,10 @@ theorem hCancelWorkflow_ok (c : Cfg) (s : State) (id : Nat) : EffsOK (hCancelWor
   unfold hCancelWorkflow
   simp only []
   split
-  · effs_tac
+  · split
+    · effs_tac
+      exact effsOK_map_push _ _ (fun _ => trivial)
+    · effs_tac
   · effs_tac
     exact effsOK_map_push _ _ (fun _ => trivial)
 
